@@ -207,3 +207,53 @@ fn vc12_prsctp_forward_tsn() {
     kani::cover!(peer_cum == 5, "peer TSN space serially after ours");
     leak(f); leak(rig);
 }
+
+// @h name=vc12_should_abandon tier=quick timeout=600
+// @fn SctpInner::should_abandon
+// @stub std::time::Instant::now -> fixed instant
+// @bound one chunk record with symbolic transmit count, optional symbolic retransmission limit, optional expiry one second before / after the (fixed) current time
+// @oracle a chunk of a fully reliable channel (no limit, no lifetime) is never abandoned; with a limit r it is abandoned iff it was transmitted more than r times; with a lifetime iff the lifetime has passed: only partially-reliable traffic may be dropped
+#[kani::proof]
+#[kani::unwind(4)]
+#[kani::stub(std::time::Instant::now, now_stub)]
+fn vc12_should_abandon() {
+    let now = now_stub();
+    let tx: u32 = kani::any();
+    let has_limit: bool = kani::any(); let r: u16 = kani::any();
+    let exp_kind: u8 = kani::any(); kani::assume(exp_kind < 3);
+    let mut rec = pr_record(7, 1, 3, r, tx, false, now);
+    rec.max_retransmits = if has_limit { Some(r) } else { None };
+    rec.expiry = match exp_kind { 0 => None, 1 => Some(now - Duration::from_secs(1)), _ => Some(now + Duration::from_secs(1)) };
+    let got = SctpInner::should_abandon(&rec);
+    let want = (has_limit && tx > r as u32) || exp_kind == 1;
+    assert!(got == want, "abandon decision differs from the PR-SCTP policy of the channel");
+    kani::cover!(!has_limit && exp_kind == 0, "fully reliable");
+    kani::cover!(got && has_limit, "limit exceeded");
+    leak(rec);
+}
+
+// @h name=vc12_forward_tsn_chunk tier=quick timeout=900
+// @fn SctpInner::create_forward_tsn_chunk
+// @stub std::time::Instant::now -> fixed instant
+// @bound symbolic advanced peer ack point and receive-side cumulative TSN; one pending (stream, SSN) pair with symbolic values
+// @oracle when a chunk is produced it is a well-formed FORWARD-TSN (type 192, length 12) carrying the advanced peer ack point and the stream/SSN pair, and the pending pairs are consumed
+#[kani::proof]
+#[kani::unwind(4)]
+#[kani::stub(std::time::Instant::now, now_stub)]
+#[kani::stub(std::backtrace::Backtrace::capture, bt_stub)]
+fn vc12_forward_tsn_chunk() {
+    let rig = Rig::new(true, SctpState::Connected);
+    let inner = rig.inner();
+    let adv: u32 = kani::any(); let sid: u16 = kani::any(); let ssn: u16 = kani::any();
+    inner.advanced_peer_ack_tsn.store(adv, Ordering::SeqCst);
+    inner.cumulative_tsn_ack.store(kani::any(), Ordering::SeqCst);
+    { let mut v = Vec::with_capacity(2); v.push((sid, ssn)); *inner.forward_tsn_streams.lock() = v; }
+    let f = inner.create_forward_tsn_chunk();
+    if let Some(c) = &f {
+        assert!(c.len() == 12 && c[0] == CT_FORWARD_TSN && c[1] == 0 && u16::from_be_bytes([c[2], c[3]]) == 12);
+        assert!(u32::from_be_bytes([c[4], c[5], c[6], c[7]]) == adv && u16::from_be_bytes([c[8], c[9]]) == sid && u16::from_be_bytes([c[10], c[11]]) == ssn);
+        assert!(inner.forward_tsn_streams.lock().is_empty());
+    }
+    kani::cover!(f.is_some(), "chunk produced");
+    leak(f); leak(rig);
+}
